@@ -122,9 +122,13 @@ impl NamespaceStates {
     ///
     /// Frees the slot if it is still held by that request. If a request from the remote was
     /// accepted in the meantime, the slot belongs to that session and is left alone.
-    pub fn abort_connect(&mut self, namespace: &NamespaceId, node: EndpointId) {
-        if let Some(state) = self.entry(namespace, node) {
-            state.abort_connect();
+    ///
+    /// Returns `true` if a sync report was refused while the request was running: the request is
+    /// over, so the follow-up request should be started now.
+    pub fn abort_connect(&mut self, namespace: &NamespaceId, node: EndpointId) -> bool {
+        match self.entry(namespace, node) {
+            Some(state) => state.abort_connect(),
+            None => false,
         }
     }
 
@@ -188,6 +192,13 @@ impl PeerState {
                 start,
                 origin: origin2,
             } => {
+                // The slot belongs to one session. The result of another one - our own request
+                // that failed after a request of the remote took the slot over, or the reverse -
+                // must not free it while its owner is still running.
+                if matches!(origin2, Origin::Accept) != matches!(origin, Origin::Accept) {
+                    warn!(actual = ?origin, expected = ?origin2, "finished sync does not own the sync state, ignoring");
+                    return None;
+                }
                 if origin2 != origin {
                     warn!(actual = ?origin, expected = ?origin2, "finished sync origin does not match state")
                 }
@@ -204,7 +215,7 @@ impl PeerState {
         start.map(|s| (s, self.resync_requested))
     }
 
-    fn abort_connect(&mut self) {
+    fn abort_connect(&mut self) -> bool {
         if let SyncState::Running {
             origin: Origin::Connect(_),
             ..
@@ -212,6 +223,10 @@ impl PeerState {
         {
             debug!("connect was declined by the remote: back to idle");
             self.state = SyncState::Idle;
+            // a sync report that was refused because of this request still has to be followed up
+            std::mem::take(&mut self.resync_requested)
+        } else {
+            false
         }
     }
 
